@@ -1,6 +1,6 @@
 # C09: LZ13 compression emits a valid wrapped LZ11 stream that expands to the input; never panics/aborts.
 from lzcommon import (LZCheckMixin, PropertyCheck, Case, Bad, compress_inputs, parse_compress_out, parse_hex, hexb,
-                      strict_parse, expand, shrink_bytes, shrink_ptok)
+                      strict_parse, expand, shrink_bytes, shrink_ptok, case_data_token)
 
 HDR_MODEL_MAX = 1200      # the wrapper length (calculate_lz13_header) is computed by the model up to this input size
 
@@ -35,7 +35,7 @@ class C09(LZCheckMixin, PropertyCheck):
         return any(not isinstance(t, int) for t in toks)
 
     def oracle(self, case, impl_out, profile):
-        data = parse_hex(case.line.split(" ")[2])
+        data = parse_hex(case_data_token(case.line))
         cat, c, rt = parse_compress_out(impl_out)
         if cat not in ("ok", "err"):
             return "LZ13 compression neither returned Ok nor Err: %s" % impl_out[:80]
@@ -67,6 +67,8 @@ class C09(LZCheckMixin, PropertyCheck):
 
     def shrink_candidates(self, case):
         parts = case.line.split(" ")
+        if len(parts) > 3:
+            return                  # prelude + input (collision siblings): the pair is the case, not shrunk
         if parts[2][0] == "P" or "+" in parts[2]:
             for t in shrink_ptok(parts[2]):
                 yield Case("%s 0 %s" % (parts[0], t), case.stream)
